@@ -262,11 +262,23 @@ class C19Plan(RunPlan):
 
 def b_boots(seed, tier, opt=False):
     """World B boots: SI only (prefixes available), everything, and the bare core."""
+    import random
+
+    from sim.util import h64
+
     boots = [
         {"imports": ["si"], "trace": False, "opt": opt, "hashseed": 0},
         {"imports": list(ALL_MODULES), "trace": False, "opt": opt, "hashseed": 0},
         {"imports": [], "trace": False, "opt": opt, "hashseed": 0},
+        # traced boots: the system under test is the shipped units themselves
+        # (sizes solved from the traced declaration history)
+        {"imports": list(ALL_MODULES), "trace": True, "opt": opt, "hashseed": 0},
     ]
+    rng = random.Random(h64(seed, "b-boots"))
+    for _ in range(1 if tier == "quick" else 6):
+        mods = list(ALL_MODULES)
+        rng.shuffle(mods)
+        boots.append({"imports": mods[:rng.randint(3, len(mods))], "trace": True, "opt": opt, "hashseed": 0})
     if tier == "thorough":
         boots += [b for b in std_boots(seed, 4, opt)[2:]]
     return boots
@@ -370,7 +382,8 @@ class C08Plan(RunPlan):
         return {"faults": True}
 
     def request(self, run_seed, boot):
-        return {"engine": "B", "prop": self.prop, "seed": run_seed, "params": self.params_cache,
+        return {"engine": "B", "prop": self.prop, "seed": run_seed,
+                "params": dict(self.params_cache, shipped=bool(boot.get("trace"))),
                 "timeout": self.run_timeout, "want_ops": True}
 
     def nontrivial(self, r):
@@ -521,7 +534,8 @@ class C04Plan(RunPlan):
         return {"faults": True}
 
     def request(self, run_seed, boot):
-        return {"engine": "B", "prop": self.prop, "seed": run_seed, "params": self.params_cache,
+        return {"engine": "B", "prop": self.prop, "seed": run_seed,
+                "params": dict(self.params_cache, shipped=bool(boot.get("trace"))),
                 "timeout": self.run_timeout}
 
 
